@@ -125,12 +125,22 @@ func (g *scenGen) renderOpt(it *Item) {
 		}
 	default: // Normal, Bundling
 		head = "-" + it.Typed
+		if it.Repeat > 1 {
+			head = "-" + strings.Repeat(it.Typed, it.Repeat)
+		}
 		if it.Attached {
 			head += "=" + vals[0]
 			vals = vals[1:]
 		}
 	}
 	it.Tokens = append([]string{head}, vals...)
+	if it.Repeat > 1 && !(it.Short && g.mode == 1) {
+		// outside a bundle the repeated flag is written as that many separate tokens
+		it.Tokens = nil
+		for k := 0; k < it.Repeat; k++ {
+			it.Tokens = append(it.Tokens, head)
+		}
+	}
 }
 
 func (g *scenGen) genValue(o *Opt, attached bool, bad bool) string {
@@ -171,7 +181,7 @@ func (g *scenGen) genValue(o *Opt, attached bool, bad bool) string {
 	}
 	if k == KMap && g.cfg.HostileVals && g.r.Chance(1, 4) {
 		n := strconv.Itoa(g.pay.next())
-		return g.r.Pick([]string{"K" + n + "=a=b", "K" + n + "==", "K" + n + "=", "K" + n + "=a b", "K" + n + "=-x", "Kx" + n + "=é"})
+		return g.r.Pick([]string{"K" + n + "=a=b", "K" + n + "==", "K" + n + "=", "K" + n + "=a b", "K" + n + "=-x", "Kx" + n + "=é", "=x" + n, "=" + n + "=y"})
 	}
 	return g.pay.ValueFor(k)
 }
@@ -214,6 +224,9 @@ func (g *scenGen) Occurrence(o *Opt) *Item {
 	switch {
 	case o.Kind.IsFlag():
 		it.K = IFlag
+		if g.mode == 1 && short && single && g.r.Chance(1, 12) {
+			it.Repeat = g.r.Range(15, 40) // a long bundle of one declared flag letter
+		}
 	case o.Kind.IsScalar(), o.Kind.IsOptional():
 		if o.Kind.IsOptional() && !g.cfg.ClosedOnly && g.r.Chance(1, 3) {
 			it.K = IOptBare
